@@ -28,7 +28,7 @@ def build(jobs: int = 16, timeout: int = 1500) -> tuple[bool, str]:
         from .common import REPO
         notes = []
         for fname, fn in (("GenSched.v", translate.translate), ("GenLadder.v", translate.translate_ladder),
-                          ("GenHandle.v", translate.translate_handle), ("GenRabbit.v", translate.translate_rabbit)):
+                          ("GenHandle.v", translate.translate_handle), ("GenRabbit.v", translate.translate_rabbit), ("GenRedisMaint.v", translate.translate_redis_maintenance)):
             try:
                 text = fn(str(REPO))
             except Exception as ex:  # noqa: BLE001
